@@ -145,28 +145,34 @@ class Machine:
             wa, wb = types[sumt["l"]]["w"], types[sumt["r"]]["w"]
             wc = types[st["r"]]["w"]
             tag = T.ext(inp, inp.w - 1, inp.w - 1)
+            # Each branch only matters under its own tag value: alternatives of the input that are
+            # known to carry the other tag are don't-cares for that branch and are pruned.
+            inp_l = T.restrict_bit(inp, inp.w - 1, 0) if tag.op != "c" else inp
+            inp_r = T.restrict_bit(inp, inp.w - 1, 1) if tag.op != "c" else inp
             c = T.ext(inp, wc - 1, 0) if wc else None
-            pa = T.ext(inp, wc + wa - 1, wc) if wa else None
-            pb = T.ext(inp, wc + wb - 1, wc) if wb else None
+            cl = T.ext(inp_l, wc - 1, 0) if wc else None
+            cr = T.ext(inp_r, wc - 1, 0) if wc else None
+            pa = T.ext(inp_l, wc + wa - 1, wc) if wa else None
+            pb = T.ext(inp_r, wc + wb - 1, wc) if wb else None
             if k == "case":
                 if tag.op == "c":
                     if tag.val:
                         return self.eval(n["r"], T.cat([pb, c]))
                     return self.eval(n["l"], T.cat([pa, c]))
-                ol, fl = self.eval(n["l"], T.cat([pa, c]))
-                orr, fr = self.eval(n["r"], T.cat([pb, c]))
+                ol, fl = self.eval(n["l"], T.cat([pa, cl]))
+                orr, fr = self.eval(n["r"], T.cat([pb, cr]))
                 return T.ite(tag, orr, ol), T.ite(tag, fr, fl)
             if k == "assertl":
                 if "marker" in n:
                     self.taps.append((idx, n["marker"], tag, T.cat([pa, c])))
                 if tag.op == "c" and tag.val:
                     return self.zero(n["t"]), T.true()
-                ol, fl = self.eval(n["l"], T.cat([pa, c]))
+                ol, fl = self.eval(n["l"], T.cat([pa, cl]))
                 return ol, T.or_(tag, fl)
             # assertr
             if tag.op == "c" and not tag.val:
                 return self.zero(n["t"]), T.true()
-            orr, fr = self.eval(n["l"], T.cat([pb, c]))
+            orr, fr = self.eval(n["l"], T.cat([pb, cr]))
             return orr, T.or_(T.not_(tag), fr)
         if k == "fail":
             return self.zero(n["t"]), T.true()
